@@ -134,5 +134,48 @@ PROPS["C07"] = seq(
     "fault enumeration: one fault at every StoreFile call of every operation of seeded histories; error returned, model unchanged, durable states intact, history continues exactly",
     level="fault_enumeration")
 
-for _p in ["C05", "C17"]:
-    PROPS.setdefault(_p, {"assumptions": SEQ_ASSUME, "ready": False})
+CON_ASSUME = [
+    "interleavings are explored at park-point granularity (every StoreFile call, key comparison, callback, visitor call, ~20 guarded hook sites, operation boundaries) under sequential consistency; data races that need a torn or reordered memory access are out of reach",
+    "roles follow the README: one mutator, one flusher, N readers per store; the collection set is fixed during the concurrent phase",
+    "the scheduler serialises goroutines, so Go's race detector is not part of this check",
+    "a clean batch is evidence, not proof: schedules are sampled by a seeded scheduler",
+]
+
+PROPS["C05"] = {
+    "level": "exploration", "engine": "consim", "ready": True, "assumptions": CON_ASSUME,
+    "rule": "per run: one store (file-backed over SimDisk, or memory-only), 1-3 collections with prefix-colliding names, pre-loaded and flushed / "
+            "evicted / freshly re-opened; tasks: 1 mutator (6-36 Set/SetItem/Delete/EvictSomeItems), 0-1 flusher (1-5 Flushes), 1-4 readers "
+            "(Get, GetItem, Exist, Min/Max, totals, full and partial visits both directions, iterators, Snapshot + reads + Close); every "
+            "goroutine runs under a token-passing scheduler inside a testing/synctest bubble, the next goroutine to run is drawn from the "
+            "run's PRNG with per-run task weights, stickiness and armed park-point subsets. Oracles on the recorded history: every read "
+            "equals ONE version current in its [invoke,return] window (whole visits exactly); snapshots one version per collection "
+            "consistent over all their reads; no panic, deadlock, error or lost update (final quiescent audit); every concurrent Flush "
+            "decodes (decoder and NewStore agree) and its per-collection contents admit capture instants t1<=t2<=... in name order inside the "
+            "flush window; sampled crash images; pins released; porcupine on the per-key sub-history as second opinion (outside the "
+            "bubble). Non-trivial: >=1 read whose window spans a publication. Distinct = distinct (task operation kinds, released-task "
+            "sequence) hash, i.e. distinct interleavings.",
+    "level_text": "seeded search over schedules of real goroutines serialised by a deterministic scheduler; history checked against a sorted-map version log (exact single-writer linearizability) plus porcupine",
+    "technique": "deterministic simulation: token-passing scheduler over real goroutines in a synctest bubble, seeded schedules, history checking (version windows, porcupine), simulated disk",
+}
+
+PROPS["C17"] = seq(
+    "each generated history (lookups, visits, iterators, mutations, flushes, re-opens, collection management, CopyTo) is executed "
+    "twice from the same concrete trace: without callbacks and with a subset of the 8 neutral callbacks (30% single callbacks, else a "
+    "random mask; chunk sizes 1-9); both executions are judged against the model on every operation, and the files must decode to "
+    "the same state and satisfy the layout (byte equality is recorded as a probe). evaluations = executions. Non-trivial: a flush "
+    "happened and the mask was not empty. Distinct = distinct (operation-kind sequence, mask).",
+    "differential seeded exploration over callback configurations x histories")
+
+PROPS["C18"]["engine"] = "consim"
+PROPS["C18"]["assumptions"] = CON_ASSUME + SEQ_ASSUME[1:2]
+PROPS["C18"]["rule"] = ("half of the runs use the sequential engine: iterators with Next/Close scripts (never Next, stop after j, Close twice, Next "
+    "after Close/exhaustion) ascending and descending and nested API calls inside visitors and between Next calls to depth 3; the other "
+    "half use the scheduled engine: 1-3 consumer tasks (the mutator being one of them in 60% of the runs, mutating between Next calls and "
+    "after Close while the producer is still unwinding) plus an independent mutator, every goroutine including gkvlite's iterator "
+    "producers under the seeded scheduler with hook park points after each producer wake-up, in the visit unwinding and in the drain. "
+    "Oracles: Next after Close/exhaustion is false, delivered items are a prefix of one version current in the window, exhaustion only "
+    "when a version has exactly those items, no deadlock (quiescence with unfinished tasks), no goroutine left blocked at the end of the "
+    "synctest bubble, every collection's current version referenced exactly once afterwards (pin released, hook). Non-trivial: an "
+    "iterator ran (sequential) / >2 context switches (scheduled)." + DISTINCT)
+PROPS["C18"]["level_text"] = "seeded exploration of iterator scripts, re-entrant visitors and consumer/producer interleavings; liveness as quiescence with nothing blocked"
+PROPS["C18"]["technique"] = PROPS["C05"]["technique"]
